@@ -52,6 +52,7 @@ class Profile:
         self.timeouts = None  # strategy for per-type timeouts or None
         self.preload = 0  # max unrelated events preloaded per bus by a dedicated first actor
         self.burst = [2, 3, 5]
+        self.fan = 0.0  # probability that one root handler fans out more children than the bus accepts (back-pressure inside a handler)
         self.__dict__.update(kw)
 
 
@@ -193,6 +194,19 @@ def scenario(draw, p: Profile):
         'cap': p.cap,
         'warm': draw(st.sampled_from(p.warm)),
     }
+    if p.fan and chance(draw, p.fan):
+        cands = [i for i, h in enumerate(handlers) if h['pat'] in (0, 's0') and h['kind'] in ASYNC_KINDS and not h.get('probe')]
+        if cands and maxdepth >= 1:
+            hi = draw(st.sampled_from(cands))
+            tb = draw(st.integers(0, nb - 1))
+            h = dict(handlers[hi])
+            pos = draw(st.integers(0, len(h['prog'])))
+            if h['prog'] and h['prog'][-1][0] == 'raise':
+                pos = min(pos, len(h['prog']) - 1)
+            h['prog'] = h['prog'][:pos] + [['fan', tb, draw(st.sampled_from([52, 60, 75])), draw(st.booleans())]] + h['prog'][pos:]
+            handlers[hi] = h
+            buses[tb]['hist'] = 50  # the back-pressure limit is only enforced on buses with a history limit
+            sc['cap'] = max(sc['cap'], 400)
     if p.watch:
         sc['watch'] = True
     if p.timeouts is not None:
